@@ -29,6 +29,18 @@ pub mod stream {
             self.lock()
         }
     }
+    impl AsLockedWrite for std::io::StdoutLock<'static> {
+        type Write<'w> = &'w mut Self;
+        fn as_locked_write(&mut self) -> Self::Write<'_> {
+            self
+        }
+    }
+    impl AsLockedWrite for std::io::StderrLock<'static> {
+        type Write<'w> = &'w mut Self;
+        fn as_locked_write(&mut self) -> Self::Write<'_> {
+            self
+        }
+    }
     impl AsLockedWrite for Vec<u8> {
         type Write<'w> = &'w mut Vec<u8>;
         fn as_locked_write(&mut self) -> Self::Write<'_> {
@@ -137,6 +149,23 @@ fn kind_of(e: &io::Error) -> &'static str {
     }
 }
 
+macro_rules! wlits {
+    ($($l:literal),* $(,)?) => {
+        const WLITS: &[&str] = &[$($l),*];
+        /// `write!` with a format string that has no run-time arguments (Arguments::as_str() is Some)
+        fn write_wlit(w: &mut dyn io::Write, k: usize) -> io::Result<()> {
+            let mut i = 0usize;
+            $(
+                if i == k { return write!(w, $l); }
+                i += 1;
+            )*
+            let _ = i;
+            panic!("literal index")
+        }
+    };
+}
+wlits! { "plain words, two runs\n", "\x1b[1mbold\x1b[0m and the rest of it", "tail", "\x1b[31", "mred\n", "a\x1b[32mb\x1b[44mc\x1b[0md" }
+
 fn record(seed: u64, runs: u64, target: usize, path: &str, faults: bool, palette: bool) -> Value {
     let f = std::fs::File::create(path).unwrap();
     let mut w = io::BufWriter::new(f);
@@ -203,6 +232,25 @@ fn record(seed: u64, runs: u64, target: usize, path: &str, faults: bool, palette
             }
             if pos >= input.len() {
                 break;
+            }
+            if r.chance(1, 7) {
+                // an extra formatted write whose format string is a literal, in between the chunks of the input
+                let k = r.below(WLITS.len());
+                let lit = WLITS[k].as_bytes();
+                log.borrow_mut().calls.clear();
+                let res = catch_unwind(AssertUnwindSafe(|| write_wlit(&mut s, k)));
+                let console: Vec<Value> = log.borrow().calls.iter().map(|(f, b, d, t, k)| json!([f, b, d, t, k])).collect();
+                let ret = match &res {
+                    Ok(Ok(())) => json!(["ok", lit.len()]),
+                    Ok(Err(e)) => json!([kind_of(e), 0]),
+                    Err(_) => json!(["panic", 0]),
+                };
+                writeln!(w, "{}", json!({"op":"write_fmt","new":if first {1} else {0},"buf":lit,"console":console,"ret":ret,"literal":true})).unwrap();
+                events += 1;
+                first = false;
+                if !matches!(&res, Ok(Ok(()))) {
+                    break;
+                }
             }
             c = c.min(input.len() - pos);
             let buf = &input[pos..pos + c];
@@ -341,6 +389,57 @@ fn main() {
             "{}",
             record(args[2].parse().unwrap(), args[3].parse().unwrap(), args[4].parse().unwrap(), &args[5], args[6] == "1", args[6] == "2")
         ),
+        // std-lock <cases.ndjson> <stdout|stderr>: {"chunks":[[bytes],[bytes]]}: WinconStream over the REAL process stream
+        // (anstyle-wincon's ANSI fallback: the pipe is no console), first chunk, lock(), second chunk; a marker written
+        // through std directly after each chunk and each case
+        Some("std-lock") => {
+            enum S {
+                O(wincon::WinconStream<io::Stdout>),
+                OL(wincon::WinconStream<io::StdoutLock<'static>>),
+                E(wincon::WinconStream<io::Stderr>),
+                EL(wincon::WinconStream<io::StderrLock<'static>>),
+            }
+            let out = args[3] == "stdout";
+            let mark = |m: &[u8]| {
+                if out {
+                    let mut o = io::stdout();
+                    let _ = o.write_all(m).and_then(|_| o.flush());
+                } else {
+                    let mut o = io::stderr();
+                    let _ = o.write_all(m).and_then(|_| o.flush());
+                }
+            };
+            let f = std::fs::File::open(&args[2]).unwrap();
+            for line in io::BufReader::new(f).lines() {
+                let line = line.unwrap();
+                if line.trim().is_empty() {
+                    continue;
+                }
+                let c: Value = serde_json::from_str(&line).unwrap();
+                let chunks: Vec<Vec<u8>> = c["chunks"].as_array().unwrap().iter().map(|x| x.as_array().unwrap().iter().map(|b| b.as_u64().unwrap() as u8).collect()).collect();
+                let _ = catch_unwind(AssertUnwindSafe(|| {
+                    let mut s = if out { S::O(wincon::WinconStream::new(io::stdout())) } else { S::E(wincon::WinconStream::new(io::stderr())) };
+                    for (k, ch) in chunks.iter().enumerate() {
+                        if k == 1 {
+                            s = match s {
+                                S::O(x) => S::OL(x.lock()),
+                                S::E(x) => S::EL(x.lock()),
+                                other => other,
+                            };
+                        }
+                        let r = match &mut s {
+                            S::O(x) => x.write_all(ch).and_then(|_| x.flush()),
+                            S::OL(x) => x.write_all(ch).and_then(|_| x.flush()),
+                            S::E(x) => x.write_all(ch).and_then(|_| x.flush()),
+                            S::EL(x) => x.write_all(ch).and_then(|_| x.flush()),
+                        };
+                        r.unwrap();
+                        mark(b"\n@@CUT@@\n");
+                    }
+                }));
+                mark(b"\n@@SEP@@\n");
+            }
+        }
         // witness <out>: the canonical witness of finding F13
         Some("witness") => {
             let mut script = VecDeque::new();
